@@ -280,6 +280,15 @@ func runWorkers(id, tier, bin string, n int, outdir, param string, merged *evid.
 				return
 			}
 			sig := crashSignature(tail)
+			if sig == "unknown" {
+				// a stack-overflow dump is far longer than the tail: the "fatal error:" line is at its beginning
+				if hb, _ := os.ReadFile(filepath.Join(outdir, fmt.Sprintf("w%d.stderr", k))); len(hb) > 0 {
+					if len(hb) > 20000 {
+						hb = hb[:20000]
+					}
+					sig = crashSignature(string(hb))
+				}
+			}
 			merged.Violate("crash:"+sig, "worker process died while executing the recorded case: "+sig,
 				map[string]interface{}{"case": json.RawMessage(cur), "stderr_tail": tail})
 			merged.Capped = true
